@@ -24,7 +24,7 @@ EXTENDS Integers, Sequences, FiniteSets, TLC
 
 CONSTANTS MaxLen,        \* input histories of length <= MaxLen (one less for programs reading 3 input bits)
           ProgIds,       \* subset of DOMAIN Programs to explore
-          TMutant        \* "" | "lastmatch" | "late" | "postedge" : seeded errors in the machine (not in the theorems)
+          TMutant        \* "" | "lastmatch" | "late" | "postedge" | "ignoreen" : seeded errors in the machine (not in the theorems)
 
 (* ------------------------------ expressions ------------------------------ *)
 Sig(n)    == [op |-> "sig", n |-> n]                 \* a b s r t cyc
@@ -67,40 +67,58 @@ MatchCase(v, w, cs) == cs.dflt \/ \E j \in 1..Len(cs.pats) : MatchPat(v, w, cs.p
 
 (* the catalogue *)
 Programs == <<
-  [uses |-> {},         body |-> <<PrintS(1)>>],
-  [uses |-> {"a"},      body |-> <<If(<<Br(Sig("a"), <<PrintS(1)>>)>>, <<>>)>>],
-  [uses |-> {"a", "b"}, body |-> <<If(<<Br(Sig("a"), <<If(<<Br(Sig("b"), <<PrintS(1)>>)>>, <<>>), PrintS(2)>>)>>, <<PrintS(3)>>)>>],
-  [uses |-> {"a", "b"}, body |-> <<If(<<Br(Sig("a"), <<PrintS(1)>>), Br(Sig("b"), <<PrintS(2)>>)>>, <<PrintS(3)>>), PrintS(4)>>],
-  [uses |-> {"s"},      body |-> <<Switch(Sig("s"), 2, <<Case(<< <<"0","0">> >>, <<PrintS(1)>>),
+  [wrap |-> <<>>, sub |-> FALSE, reg |-> FALSE, uses |-> {},         body |-> <<PrintS(1)>>],
+  [wrap |-> <<>>, sub |-> FALSE, reg |-> FALSE, uses |-> {"a"},      body |-> <<If(<<Br(Sig("a"), <<PrintS(1)>>)>>, <<>>)>>],
+  [wrap |-> <<>>, sub |-> FALSE, reg |-> FALSE, uses |-> {"a", "b"}, body |-> <<If(<<Br(Sig("a"), <<If(<<Br(Sig("b"), <<PrintS(1)>>)>>, <<>>), PrintS(2)>>)>>, <<PrintS(3)>>)>>],
+  [wrap |-> <<>>, sub |-> FALSE, reg |-> FALSE, uses |-> {"a", "b"}, body |-> <<If(<<Br(Sig("a"), <<PrintS(1)>>), Br(Sig("b"), <<PrintS(2)>>)>>, <<PrintS(3)>>), PrintS(4)>>],
+  [wrap |-> <<>>, sub |-> FALSE, reg |-> FALSE, uses |-> {"s"},      body |-> <<Switch(Sig("s"), 2, <<Case(<< <<"0","0">> >>, <<PrintS(1)>>),
                                                         Case(<< <<"0","1">>, <<"1","0">> >>, <<PrintS(2)>>),
                                                         Default(<<PrintS(3)>>)>>)>>],
-  [uses |-> {"s"},      body |-> <<Switch(Sig("s"), 2, <<Case(<< <<"1","-">> >>, <<PrintS(1)>>),
+  [wrap |-> <<>>, sub |-> FALSE, reg |-> FALSE, uses |-> {"s"},      body |-> <<Switch(Sig("s"), 2, <<Case(<< <<"1","-">> >>, <<PrintS(1)>>),
                                                         Case(<< <<"1","1">> >>, <<PrintS(2)>>),
                                                         Case(<< <<"-","0">> >>, <<PrintS(3)>>)>>),
                                    If(<<Br(Sig("s"), <<PrintS(4)>>)>>, <<>>)>>],
-  [uses |-> {"a"},      body |-> <<If(<<Br(Sig("r"), <<PrintS(1)>>)>>, <<>>), If(<<Br(Sig("t"), <<PrintS(2)>>)>>, <<PrintS(3)>>)>>],
-  [uses |-> {"a"},      body |-> <<AssertS(1, Sig("a")), PrintS(2)>>],
-  [uses |-> {"a", "b"}, body |-> <<PrintS(3), If(<<Br(Sig("b"), <<AssertS(1, Sig("a")), PrintS(2)>>)>>, <<>>)>>],
-  [uses |-> {"a"},      body |-> <<PrintS(1), If(<<Br(Bit(Sig("cyc"), 1), <<AssumeS(2, Not(And(Sig("a"), Sig("r"))))>>)>>, <<>>)>>],
-  [uses |-> {"s", "b"}, body |-> <<Switch(Sig("s"), 2, <<Case(<< <<"1","-">> >>, <<If(<<Br(Sig("b"), <<AssertS(1, Eq(Sig("s"), 2))>>)>>, <<>>), PrintS(2)>>),
+  [wrap |-> <<>>, sub |-> FALSE, reg |-> FALSE, uses |-> {"a"},      body |-> <<If(<<Br(Sig("r"), <<PrintS(1)>>)>>, <<>>), If(<<Br(Sig("t"), <<PrintS(2)>>)>>, <<PrintS(3)>>)>>],
+  [wrap |-> <<>>, sub |-> FALSE, reg |-> FALSE, uses |-> {"a"},      body |-> <<AssertS(1, Sig("a")), PrintS(2)>>],
+  [wrap |-> <<>>, sub |-> FALSE, reg |-> FALSE, uses |-> {"a", "b"}, body |-> <<PrintS(3), If(<<Br(Sig("b"), <<AssertS(1, Sig("a")), PrintS(2)>>)>>, <<>>)>>],
+  [wrap |-> <<>>, sub |-> FALSE, reg |-> FALSE, uses |-> {"a"},      body |-> <<PrintS(1), If(<<Br(Bit(Sig("cyc"), 1), <<AssumeS(2, Not(And(Sig("a"), Sig("r"))))>>)>>, <<>>)>>],
+  [wrap |-> <<>>, sub |-> FALSE, reg |-> FALSE, uses |-> {"s", "b"}, body |-> <<Switch(Sig("s"), 2, <<Case(<< <<"1","-">> >>, <<If(<<Br(Sig("b"), <<AssertS(1, Eq(Sig("s"), 2))>>)>>, <<>>), PrintS(2)>>),
                                                         Default(<<PrintS(3)>>)>>)>>],
-  [uses |-> {"a", "b"}, body |-> <<AssertS(1, Sig("a")), AssumeS(2, Sig("b")), PrintS(3)>>],
-  [uses |-> {"a"},      body |-> <<If(<<Br(Eq(Sig("cyc"), 2), <<AssertS(1, Sig("a"))>>)>>, <<>>), If(<<Br(Sig("a"), <<PrintS(2)>>)>>, <<>>)>>],
-  [uses |-> {"a", "s"}, body |-> <<If(<<Br(Sig("a"), <<Switch(Sig("s"), 2, <<Case(<< <<"0","1">> >>, <<PrintS(1)>>),
+  [wrap |-> <<>>, sub |-> FALSE, reg |-> FALSE, uses |-> {"a", "b"}, body |-> <<AssertS(1, Sig("a")), AssumeS(2, Sig("b")), PrintS(3)>>],
+  [wrap |-> <<>>, sub |-> FALSE, reg |-> FALSE, uses |-> {"a"},      body |-> <<If(<<Br(Eq(Sig("cyc"), 2), <<AssertS(1, Sig("a"))>>)>>, <<>>), If(<<Br(Sig("a"), <<PrintS(2)>>)>>, <<>>)>>],
+  [wrap |-> <<>>, sub |-> FALSE, reg |-> FALSE, uses |-> {"a", "s"}, body |-> <<If(<<Br(Sig("a"), <<Switch(Sig("s"), 2, <<Case(<< <<"0","1">> >>, <<PrintS(1)>>),
                                                                                Case(<< <<"-","1">> >>, <<AssumeS(2, Sig("t"))>>),
                                                                                Default(<<PrintS(3)>>)>>)>>),
                                         Br(Eq(Sig("s"), 3), <<PrintS(4)>>)>>,
                                       <<AssertS(5, Or(Not(Sig("r")), Bit(Sig("s"), 1))), PrintS(6)>>)>>],
-  [uses |-> {"a", "b"}, body |-> <<If(<<Br(K(0), <<PrintS(1), AssertS(2, K(0))>>), Br(And(Sig("a"), Not(Sig("b"))), <<PrintS(3)>>)>>, <<>>),
+  [wrap |-> <<>>, sub |-> FALSE, reg |-> FALSE, uses |-> {"a", "b"}, body |-> <<If(<<Br(K(0), <<PrintS(1), AssertS(2, K(0))>>), Br(And(Sig("a"), Not(Sig("b"))), <<PrintS(3)>>)>>, <<>>),
                                    If(<<Br(Sig("t"), <<AssertS(4, Or(Sig("a"), Sig("b")))>>)>>, <<>>)>>],
   (* conditions wider than one bit: zero iff the whole value is zero *)
-  [uses |-> {"s"},      body |-> <<AssertS(1, Sig("s")), PrintS(2)>>],
-  [uses |-> {"b"},      body |-> <<PrintS(1), If(<<Br(Bit(Sig("cyc"), 1), <<AssumeS(2, Sig("q"))>>)>>, <<PrintS(3)>>)>>],
-  [uses |-> {"s", "b"}, body |-> <<If(<<Br(Sig("b"), <<AssertS(1, AsSigned(Sig("s"), 2)), PrintS(2)>>)>>, <<AssumeS(3, Mask(Sig("s"), 2))>>)>>],
-  [uses |-> {"s", "b"}, body |-> <<Switch(Sig("q"), 2, <<Case(<< <<"0","0">> >>, <<PrintS(1)>>),
+  [wrap |-> <<>>, sub |-> FALSE, reg |-> FALSE, uses |-> {"s"},      body |-> <<AssertS(1, Sig("s")), PrintS(2)>>],
+  [wrap |-> <<>>, sub |-> FALSE, reg |-> FALSE, uses |-> {"b"},      body |-> <<PrintS(1), If(<<Br(Bit(Sig("cyc"), 1), <<AssumeS(2, Sig("q"))>>)>>, <<PrintS(3)>>)>>],
+  [wrap |-> <<>>, sub |-> FALSE, reg |-> FALSE, uses |-> {"s", "b"}, body |-> <<If(<<Br(Sig("b"), <<AssertS(1, AsSigned(Sig("s"), 2)), PrintS(2)>>)>>, <<AssumeS(3, Mask(Sig("s"), 2))>>)>>],
+  [wrap |-> <<>>, sub |-> FALSE, reg |-> FALSE, uses |-> {"s", "b"}, body |-> <<Switch(Sig("q"), 2, <<Case(<< <<"0","0">> >>, <<PrintS(1)>>),
                                                         Case(<< <<"-","1">> >>, <<AssumeS(2, Sig("s")), PrintS(3)>>),
                                                         Default(<<AssertS(4, Mask(Sig("cyc"), 6)), PrintS(5)>>)>>)>>],
-  [uses |-> {"a", "b"}, body |-> <<If(<<Br(Sig("q"), <<AssertS(1, AsSigned(Mask(Sig("q"), 2), 2))>>), Br(Sig("a"), <<PrintS(2)>>)>>, <<AssumeS(3, Mask(Sig("cyc"), 12))>>)>>]
+  [wrap |-> <<>>, sub |-> FALSE, reg |-> FALSE, uses |-> {"a", "b"}, body |-> <<If(<<Br(Sig("q"), <<AssertS(1, AsSigned(Mask(Sig("q"), 2), 2))>>), Br(Sig("a"), <<PrintS(2)>>)>>, <<AssumeS(3, Mask(Sig("cyc"), 12))>>)>>],
+  (* activity controlled from outside the module: the body sits in a module of its own (the registers stay outside),  *)
+  (* wrapped innermost-first by the modifiers in `wrap`: "en1" = EnableInserter(e), "en2" = EnableInserter(f),        *)
+  (* "rst" = ResetInserter(x), "rename" = the whole design moved to a second clock domain by DomainRenamer while the   *)
+  (* original clock keeps toggling (edges = edges of the renamed domain's clock).  sub: the statements are in a        *)
+  (* submodule of the wrapped module; reg: the wrapped module also assigns an unrelated register in the same domain.   *)
+  [wrap |-> <<"en1">>, sub |-> FALSE, reg |-> FALSE, uses |-> {"e", "a"}, body |-> <<PrintS(1), If(<<Br(Sig("a"), <<PrintS(2)>>)>>, <<>>)>>],
+  [wrap |-> <<"en1">>, sub |-> FALSE, reg |-> FALSE, uses |-> {"e", "a"}, body |-> <<AssertS(1, Sig("a"))>>],
+  [wrap |-> <<"en1">>, sub |-> FALSE, reg |-> FALSE, uses |-> {"e", "s"}, body |-> <<PrintS(1), AssumeS(2, Sig("s"))>>],
+  [wrap |-> <<"en1">>, sub |-> FALSE, reg |-> TRUE,  uses |-> {"e", "a"}, body |-> <<PrintS(1), If(<<Br(Sig("a"), <<PrintS(2)>>)>>, <<>>)>>],
+  [wrap |-> <<"en1">>, sub |-> FALSE, reg |-> TRUE,  uses |-> {"e", "a"}, body |-> <<PrintS(1), AssertS(2, Sig("a"))>>],
+  [wrap |-> <<"en1">>, sub |-> TRUE,  reg |-> FALSE, uses |-> {"e", "a"}, body |-> <<PrintS(1), AssertS(2, Sig("a"))>>],
+  [wrap |-> <<"en1">>, sub |-> TRUE,  reg |-> TRUE,  uses |-> {"e", "a"}, body |-> <<If(<<Br(Sig("a"), <<PrintS(1)>>)>>, <<>>), AssumeS(2, Or(Sig("a"), Not(Sig("r"))))>>],
+  [wrap |-> <<"en1", "en2">>, sub |-> FALSE, reg |-> FALSE, uses |-> {"e", "f", "a"}, body |-> <<PrintS(1), AssertS(2, Sig("a"))>>],
+  [wrap |-> <<"en1", "en2">>, sub |-> TRUE,  reg |-> TRUE,  uses |-> {"e", "f"}, body |-> <<PrintS(1)>>],
+  [wrap |-> <<"rst">>, sub |-> FALSE, reg |-> TRUE,  uses |-> {"x", "a"}, body |-> <<PrintS(1), AssertS(2, Sig("a"))>>],
+  [wrap |-> <<"rst", "en1">>, sub |-> FALSE, reg |-> FALSE, uses |-> {"x", "e", "a"}, body |-> <<PrintS(1), AssertS(2, Sig("a"))>>],
+  [wrap |-> <<"rename">>, sub |-> FALSE, reg |-> FALSE, uses |-> {"a", "b"}, body |-> <<PrintS(1), If(<<Br(Sig("a"), <<PrintS(2)>>)>>, <<>>), AssertS(3, Or(Sig("a"), Sig("b")))>>],
+  [wrap |-> <<"en1", "rename">>, sub |-> TRUE, reg |-> TRUE, uses |-> {"e", "a"}, body |-> <<PrintS(1), AssertS(2, Sig("a"))>>]
 >>
 
 ASSUME PrintT(<<"PROGRAMS", Programs>>)
@@ -108,7 +126,13 @@ ASSUME PrintT(<<"PROGRAMS", Programs>>)
 VARIABLES p, n, regs, ins, hist, emitted, stop, atstop
 vars == <<p, n, regs, ins, hist, emitted, stop, atstop>>
 
-Limit(q) == IF Cardinality(Programs[q].uses) >= 2 /\ "s" \in Programs[q].uses THEN MaxLen - 1 ELSE MaxLen
+InBits(q) == Cardinality(Programs[q].uses) + (IF "s" \in Programs[q].uses THEN 1 ELSE 0)
+Limit(q) == IF InBits(q) >= 3 THEN MaxLen - 1 ELSE MaxLen
+(* every enclosing EnableInserter must have its enable high for anything in the wrapped module to be active; a        *)
+(* ResetInserter and a DomainRenamer do not change which statements are active                                         *)
+Gate(q, env) == \A i \in 1..Len(Programs[q].wrap) :
+                   /\ Programs[q].wrap[i] = "en1" => env.e = 1
+                   /\ Programs[q].wrap[i] = "en2" => env.f = 1
 
 (* ------------------------------ the machine: an interpreter ------------------------------ *)
 RECURSIVE ExecSeq(_, _), ExecStmt(_, _)
@@ -125,7 +149,7 @@ ExecStmt(st, env) ==
                 T == {i \in 1..Len(st.cases) : MatchCase(v, st.w, st.cases[i])} IN
             IF T = {} THEN <<>> ELSE ExecSeq(st.cases[Pick(T)].body, env)
 
-Env(a, b, s, rg) == [a |-> a, b |-> b, s |-> s, r |-> rg.r, t |-> rg.t, q |-> rg.q, cyc |-> rg.cyc]
+Env6(a, b, s, e, f, x, rg) == [a |-> a, b |-> b, s |-> s, e |-> e, f |-> f, x |-> x, r |-> rg.r, t |-> rg.t, q |-> rg.q, cyc |-> rg.cyc]
 NextRegs(a, b, rg) == [r |-> a, t |-> IF a = 1 THEN 1 - rg.t ELSE rg.t, q |-> IF b = 1 THEN (rg.q + 1) % 4 ELSE rg.q,
                        cyc |-> (rg.cyc + 1) % 16]
 
@@ -133,13 +157,13 @@ Init == /\ p \in ProgIds /\ n = 0 /\ regs = [r |-> 0, t |-> 0, q |-> 0, cyc |-> 
         /\ ins = <<>> /\ hist = <<>> /\ emitted = <<>> /\ stop = <<>> /\ atstop = {}
 
 (* the events of one edge: evaluated once per step (bound by \E so that TLC does not re-evaluate the interpreter) *)
-Tick(a, b, s) ==
+Tick(a, b, s, e, f, x) ==
     /\ stop = <<>> /\ n < Limit(p)
-    /\ LET env0 == Env(a, b, s, regs)
+    /\ LET env0 == Env6(a, b, s, e, f, x, regs)
            env == IF TMutant = "postedge" THEN [env0 EXCEPT !.r = NextRegs(a, b, regs).r, !.t = NextRegs(a, b, regs).t, !.q = NextRegs(a, b, regs).q] ELSE env0
            at == IF TMutant = "late" THEN regs.cyc + 1 ELSE regs.cyc
-       IN \E evs \in {ExecSeq(Programs[p].body, env)} :
-          \E prints \in {SelectSeq(evs, LAMBDA e : e.ev = "print")}, fails \in {SelectSeq(evs, LAMBDA e : e.ev = "fail")} :
+       IN \E evs \in {IF Gate(p, env) \/ TMutant = "ignoreen" THEN ExecSeq(Programs[p].body, env) ELSE <<>>} :
+          \E prints \in {SelectSeq(evs, LAMBDA ev : ev.ev = "print")}, fails \in {SelectSeq(evs, LAMBDA ev : ev.ev = "fail")} :
           /\ IF Len(fails) = 0
              THEN /\ emitted' = emitted \o [i \in 1..Len(prints) |-> <<regs.cyc, prints[i].id>>]
                   /\ UNCHANGED <<stop, atstop>>
@@ -147,13 +171,14 @@ Tick(a, b, s) ==
                   /\ atstop' = {prints[i].id : i \in 1..Len(prints)}
                   /\ UNCHANGED emitted
           /\ hist' = Append(hist, env0)
-    /\ ins' = Append(ins, <<a, b, s>>)
+    /\ ins' = Append(ins, <<a, b, s, e, f, x>>)
     /\ regs' = NextRegs(a, b, regs)
     /\ n' = n + 1
     /\ UNCHANGED p
 
 Dom(q, nm, top) == IF nm \in Programs[q].uses THEN 0..top ELSE {0}
-Next == \E a \in Dom(p, "a", 1), b \in Dom(p, "b", 1), s \in Dom(p, "s", 3) : Tick(a, b, s)
+Next == \E a \in Dom(p, "a", 1), b \in Dom(p, "b", 1), s \in Dom(p, "s", 3),
+             e \in Dom(p, "e", 1), f \in Dom(p, "f", 1), x \in Dom(p, "x", 1) : Tick(a, b, s, e, f, x)
 Spec == Init /\ [][Next]_vars
 
 (* ------------------------------ theorems: the contract, declaratively ------------------------------ *)
@@ -174,7 +199,7 @@ ActiveStmt(st, env) ==
                         /\ MatchCase(v, st.w, st.cases[i])
                         /\ \A j \in 1..(i - 1) : ~MatchCase(v, st.w, st.cases[j])}}
 
-Active(e) == ActiveSeq(Programs[p].body, hist[e])
+Active(e) == IF Gate(p, hist[e]) THEN ActiveSeq(Programs[p].body, hist[e]) ELSE {}
 Failing(e) == {st \in Active(e) : st.k = "prop" /\ Eval(st.cond, hist[e]) = 0}
 FirstFail == IF \E e \in 1..Len(hist) : Failing(e) # {}
              THEN CHOOSE e \in 1..Len(hist) : Failing(e) # {} /\ \A f \in 1..(e - 1) : Failing(f) = {}
